@@ -958,7 +958,7 @@ def run(ctx):
             for _ in range(rng.range(1, 3)):
                 bb[rng.range(len(bb) // 2, len(bb) - 1)] ^= 1 << rng.below(8)
             b = bytes(bb)
-        flags = (i % 2) | (rng.below(2) << 1) | ((i // 2 % 4) << 2) | (rng.below(2) << 4) | ((1 if rng.chance(1, 4) else 0) << 5) | (rng.below(2) << 6) | ((1 if rng.chance(1, 4) else 0) << 7)
+        flags = (i % 2) | (rng.below(2) << 1) | ((i // 2 % 4) << 2) | (rng.below(2) << 4) | ((1 if rng.chance(1, 4) else 0) << 5) | (rng.below(2) << 6) | ((1 if rng.chance(1, 4) else 0) << 7) | ((1 if rng.chance(1, 4) else 0) << 8)
         cases.append(("crop %d %d %s" % (flags, rng.below(100000), b.hex()), "crop"))
     bqsrc = big + [s2 for (s2, tag, segs) in parsed if tag in ("p0", "p2", "p3", "p4", "p1")]
     for i in range(ctx.n(300, 6000)):
